@@ -99,7 +99,18 @@ def gen_hw(rng):
         arch += "        - name: FPAdd\n          class: Compute\n          attributes:\n            type: add\n"
     if has_seq:
         arch += "        - name: Seq\n          class: Sequencer\n          attributes:\n            num_ranks: %d\n" % len(lo)
-    if not (isect or has_mul or has_add or has_seq or buf1):
+    # hardware merger for an input whose stored rank order is not the loop order (the init-ranks may differ from the stored order:
+    # the compiler then inserts an extra swizzle to bring the tensor into the merger's input order first)
+    merger = None
+    cands = [t for t in inputs if len(decl[t]) > 1 and ro.get(t, decl[t]) != tranks(t) and all(r in lo for r in decl[t])]
+    if cands and rng.random() < 0.6:
+        t = rng.choice(cands)
+        init = list(ro.get(t, decl[t])) if rng.random() < 0.6 else rng.sample(decl[t], len(decl[t]))
+        if init != tranks(t):
+            merger = (t, init, tranks(t))
+            arch += ("        - name: Mrg\n          class: Merger\n          attributes:\n            inputs: %d\n            comparator_radix: %d\n            outputs: 1\n            order: %s\n            reduce: False\n"
+                     % (rng.choice([2, 4]), rng.choice([2, 4]), rng.choice(["fifo", "opt"])))
+    if not (isect or has_mul or has_add or has_seq or buf1 or merger):
         arch += "        - name: FPAdd2\n          class: Compute\n          attributes:\n            type: add\n"
     # ---- bindings
     b = "bindings:\n  %s:\n  - config: Accel\n    prefix: tmp/%s\n" % (out, name)
@@ -140,6 +151,8 @@ def gen_hw(rng):
             b += "  - component: Isect\n    bindings:\n    - rank: %s\n" % r
             if isect == "leader-follower":
                 b += "      leader: %s\n" % rng.choice([t for t in inputs if r in tranks(t)])
+    if merger:
+        b += "  - component: Mrg\n    bindings:\n    - tensor: %s\n      init-ranks: [%s]\n      final-ranks: [%s]\n" % (merger[0], ", ".join(merger[1]), ", ".join(merger[2]))
     if has_mul:
         b += "  - component: FPMul\n    bindings:\n    - op: mul\n"
     if has_add:
@@ -149,7 +162,7 @@ def gen_hw(rng):
     full = y + fmt + arch + b
     cfg = {r: (4 if r in part else 3) for rs in decl.values() for r in rs}
     plain = mk_yaml(decl, exprs, ro=ro, part={out: part} if part else None, lo={out: lo})
-    return {"yaml": full, "configs": [cfg], "family": "hw-" + name + ("-part" if part else ""), "key": full, "hw": True, "plain_yaml": plain,
+    return {"yaml": full, "configs": [cfg], "family": "hw-" + name + ("-part" if part else "") + ("-merger" if merger else ""), "key": full, "hw": True, "plain_yaml": plain,
             "arch": {"freq": freq, "bw": bw, "npe": npe + 1}}
 
 
@@ -171,6 +184,28 @@ def hw_core():
             out.append({"yaml": y + fmt + arch + b, "configs": [{r: (2 if name == "three3L" else 3) for rs in decl.values() for r in rs}], "family": "hw-core-" + name, "key": name + L,
                         "hw": True, "plain_yaml": y, "arch": {}, "cap": 30})
     out += eager_core()
+    out += flatten_core()
+    return out
+
+
+def flatten_core():
+    """Fixed core: flattened ranks in metrics mode (explicit output shape; merger on a tensor that is flattened and split).
+    Both specifications exhibit known findings (KF-FLATSHAPE, KF-MERGER-ORDER) and are kept so that they are re-derived on every run."""
+    out = []
+    y1 = ("einsum:\n  declaration:\n    Z: [K, M]\n    A: [K, M]\n  expressions:\n    - Z[k, m] = A[k, m]\nmapping:\n  partitioning:\n    Z:\n      (K, M): [flatten()]\n"
+          "  spacetime:\n    Z:\n      space: []\n      time: [KM]\n")
+    hw1 = ("format:\n  A:\n    default:\n      rank-order: [KM]\n      KM:\n        format: C\n        pbits: 32\n"
+           "architecture:\n  accel:\n  - name: level0\n    attributes:\n      clock_frequency: 3\n    local:\n    - name: Buffer\n      class: Buffet\n      attributes:\n        width: 64\n        depth: 1024\n"
+           "bindings:\n  Z:\n  - config: accel\n    prefix: tmp/Z\n  - component: Buffer\n    bindings:\n    - tensor: A\n      rank: KM\n      type: payload\n      evict-on: root\n      format: default\n")
+    out.append({"yaml": y1 + hw1, "configs": [{"K": 2, "M": 2}], "family": "hw-core-flatten", "key": "flat-out", "hw": True,
+                "plain_yaml": y1.replace("  spacetime:\n    Z:\n      space: []\n      time: [KM]\n", ""), "arch": {}, "cap": 8})
+    y2 = ("einsum:\n  declaration:\n    A: [K, M, P]\n    Z: [K, M, P]\n  expressions:\n    - Z[k, m, p] = A[k, m, p]\nmapping:\n  partitioning:\n    Z:\n      (M, K): [flatten()]\n      P: [uniform_shape(4)]\n"
+          "  loop-order:\n    Z: [P1, MK, P0]\n")
+    st2 = "  spacetime:\n    Z:\n      space: []\n      time: [P1, MK, P0]\n"
+    hw2 = ("format:\n  A:\n    default:\n      rank-order: [P1, MK, P0]\n" + "".join("      %s:\n        format: C\n        pbits: 32\n" % r for r in ("P1", "MK", "P0")) +
+           "architecture:\n  Accel:\n  - name: System\n    attributes:\n      clock_frequency: 3\n    local:\n    - name: Mrg\n      class: Merger\n      attributes:\n        inputs: 2\n        comparator_radix: 2\n        outputs: 1\n        order: fifo\n        reduce: False\n"
+           "bindings:\n  Z:\n  - config: Accel\n    prefix: tmp/Z\n  - component: Mrg\n    bindings:\n    - tensor: A\n      init-ranks: [K, M, P1, P0]\n      final-ranks: [M, K, P1, P0]\n")
+    out.append({"yaml": y2 + st2 + hw2, "configs": [{"K": 2, "M": 2, "P": 5}], "family": "hw-core-flatten", "key": "flat-merger", "hw": True, "plain_yaml": y2, "arch": {}, "cap": 8})
     return out
 
 
